@@ -141,6 +141,10 @@ func c30Run(r *vkit.Run, c *c30Case, encKind string, obs func(site string, prefi
 		for k, v := range extra {
 			m[k] = v
 		}
+		if oi, ok := extra["op"].(int); ok && oi+1 < len(c.Ops) {
+			// the run stops at the first violation: later ops are not part of the witness
+			m["case"] = &c30Case{Ops: c.Ops[:oi+1]}
+		}
 		return m
 	}
 	dir := encKind + "-enc"
